@@ -288,7 +288,7 @@ GROW1 = {"Ldup", "Lcons", "Ldbl", "named", ",", "L,"}
 MONADIC_USE = ["each", "eachindex", "over", "scan", "eachpair", "converge", "scanconv"]
 VERB_ARITY = {"each": 1, "each2": 2, "eachleft": 2, "eachright": 2, "eachpair": 2, "eachindex": 1, "over": 2, "overn": 2,
               "scan": 2, "scann": 2, "iterate": 1, "scaniter": 1, "converge": 1, "while": 1, "scanconv": 1, "scanwhile": 1}
-PREDS = ["lt10", "lt0", "never", "short", "lt100"]
+PREDS = ["lt10", "lt0", "never", "short", "lt30"]
 OPS = {"+", "-", "*", "%", "&", "|", "=", "<", ">", ",", "#"}
 
 
@@ -418,7 +418,7 @@ def to_sx(v):
     raise ValueError(v)
 
 
-MODEL_FUEL = 2000
+MODEL_FUEL = 120
 
 
 def model_request(c):
